@@ -443,3 +443,11 @@ Theorem C11_send_file_200 : forall pd env etag lm d st cl ar out,
   (list_eqb (q_method env) s_HEAD || no_body_status st = false -> concat out = d).
 Proof. exact send_file_200. Qed.
 Print Assumptions C11_send_file_200.
+
+(* FileWrapper.seekable (regenerated): the file's own seekable() when it has that method, otherwise whether it has a
+   seek attribute - so a forward-only io object (seekable() False, seek raising) goes down _RangeWrapper's reading
+   path; C11_206_slice covers the BWrap bodies that use this decision *)
+Theorem C11_file_wrapper_seekable : forall has_seekable file_seekable has_seek,
+  file_wrapper_seekable has_seekable file_seekable has_seek = Ok (if has_seekable then file_seekable else has_seek).
+Proof. exact file_wrapper_seekable_spec. Qed.
+Print Assumptions C11_file_wrapper_seekable.
